@@ -1,12 +1,15 @@
 package props
 
 import (
+	"fmt"
 	"go/ast"
+	"go/constant"
 	"go/token"
 	"go/types"
 	"strings"
 
 	"daecheck/internal/core"
+	"daecheck/internal/fdt"
 
 	"golang.org/x/tools/go/cfg"
 )
@@ -273,4 +276,409 @@ func filepathBase(p string) string {
 		return p[i+1:]
 	}
 	return p
+}
+
+// POOLCLEAN: a splice pipe goes back to the pool only on the edge where it
+// holds no bytes; sends into the pool happen nowhere else.
+func c05PoolClean(c *Ctx) {
+	const rule = "POOLCLEAN"
+	pk := c.P.Pkg("control")
+	pool := pk.Types.Scope().Lookup("relaySplicePipePool")
+	if pool == nil {
+		c.R.Unresolved(rule, "control.relaySplicePipePool")
+		return
+	}
+	n := 0
+	for _, f := range units(c.P, "control", nil) {
+		info := f.Info()
+		g := f.Graph()
+		for _, b := range g.CFG.Blocks {
+			if !b.Live {
+				continue
+			}
+			for i, nd := range b.Nodes {
+				ss, ok := nd.(*ast.SendStmt)
+				if !ok {
+					continue
+				}
+				id, ok := ast.Unparen(ss.Chan).(*ast.Ident)
+				if !ok || info.ObjectOf(id) != pool {
+					continue
+				}
+				n++
+				c.R.Saw(f)
+				val := core.ExprStr(ss.Value)
+				empty := false
+				for _, gd := range g.Guards(core.Point{B: b, I: i}) {
+					for _, at := range core.Atoms(gd.Cond, gd.Polarity) {
+						be, ok := at.Cond.(*ast.BinaryExpr)
+						if !ok || core.ExprStr(be.X) != val+".data" || core.ExprStr(be.Y) != "0" {
+							continue
+						}
+						if (be.Op == token.NEQ && !at.Polarity) || (be.Op == token.EQL && at.Polarity) || (be.Op == token.GTR && !at.Polarity) {
+							empty = true
+						}
+					}
+				}
+				c.R.Checkf(rule, "pooled-only-when-empty@"+f.Name, c.pos(ss.Pos()), empty, "the pipe %s is sent to the pool only on the edge where %s.data == 0; a pipe that still holds spliced bytes of an aborted relay would deliver them to the next connection that takes it", val, val)
+			}
+		}
+	}
+	c.R.Floor(rule, n, 1)
+}
+
+// DETECTEOF: the sniff prefetch treats "nothing arrived in the window" — a
+// timeout or the client's FIN — as "not ready", never as an error that aborts
+// the connection before the outbound dial.
+func c05DetectEOF(c *Ctx) {
+	const rule = "DETECTEOF"
+	f := c.fn(rule, "control", "prefetchForTcpSniff")
+	if f == nil {
+		return
+	}
+	info := f.Info()
+	var eofObj types.Object
+	if iop := c.P.All["io"]; iop != nil {
+		eofObj = iop.Types.Scope().Lookup("EOF")
+	}
+	var eofKeys, nilKeys, asKeys, toKeys, gotKeys []string
+	ast.Inspect(f.Body, func(m ast.Node) bool {
+		switch x := m.(type) {
+		case *ast.CallExpr:
+			if cal := core.Callee(info, x); cal != nil && cal.Pkg() != nil && cal.Pkg().Path() == "errors" && len(x.Args) == 2 {
+				if cal.Name() == "Is" && usesObj(info, x.Args[1], eofObj) {
+					eofKeys = append(eofKeys, core.ExprStr(x))
+				}
+				if cal.Name() == "As" {
+					asKeys = append(asKeys, core.ExprStr(x))
+				}
+			}
+			if _, name, ok := methodCall(x); ok && name == "Timeout" && len(x.Args) == 0 {
+				toKeys = append(toKeys, core.ExprStr(x))
+			}
+		case *ast.BinaryExpr:
+			if x.Op == token.EQL || x.Op == token.NEQ {
+				if usesObj(info, x.Y, eofObj) {
+					eofKeys = append(eofKeys, core.ExprStr(x))
+				}
+				if core.ExprStr(x.Y) == "nil" {
+					if t := info.TypeOf(x.X); t != nil && types.Identical(t, types.Universe.Lookup("error").Type()) {
+						nilKeys = append(nilKeys, core.ExprStr(x))
+					}
+				}
+			}
+			if x.Op == token.GTR && core.ExprStr(x.Y) == "0" {
+				if bt, ok := info.TypeOf(x.X).Underlying().(*types.Basic); ok && bt.Kind() == types.Int {
+					if id, ok := x.X.(*ast.Ident); ok && id.Name != "wait" && id.Name != "maxBytes" {
+						gotKeys = append(gotKeys, core.ExprStr(x))
+					}
+				}
+			}
+		}
+		return true
+	})
+	if len(eofKeys) == 0 && len(toKeys) == 0 {
+		c.R.Unresolved(rule, "prefetchForTcpSniff: classification of the read error (io.EOF / Timeout())")
+		return
+	}
+	row := func(name string, eof, timeout bool) {
+		in := map[string]constant.Value{}
+		for _, k := range eofKeys {
+			v := eof
+			if strings.Contains(k, "!=") {
+				v = !eof
+			}
+			in[k] = constant.MakeBool(v)
+		}
+		for _, k := range nilKeys {
+			in[k] = constant.MakeBool(strings.Contains(k, "!=")) // an error is present
+		}
+		for _, k := range asKeys {
+			in[k] = constant.MakeBool(timeout)
+		}
+		for _, k := range toKeys {
+			in[k] = constant.MakeBool(timeout)
+		}
+		for _, k := range gotKeys {
+			in[k] = constant.MakeBool(false) // no byte arrived
+		}
+		job := &fdt.Job{F: f, Start: f.Graph().Entry(), Inputs: in}
+		outs := job.Run()
+		bad := ""
+		for _, o := range outs {
+			if o.Kind != "return" || len(o.Vals) == 0 {
+				bad = "an exit that is not a return"
+			} else if last := o.Vals[len(o.Vals)-1]; last != "sym:nil" {
+				bad = "returns the error " + strings.TrimPrefix(last, "sym:") + " at " + c.pos(o.Pos)
+			}
+		}
+		c.R.Checkf(rule, name+"-is-not-an-error@prefetchForTcpSniff", c.pos(f.Pos()), bad == "" && len(outs) > 0,
+			"when no byte arrived and the read ended with %s every path returns a nil error (the connection continues to the outbound dial and relay)%s", name, func() string {
+				if bad != "" {
+					return " — VIOLATED: " + bad + ": handleConn aborts a healthy connection (e.g. a client that half-closes and waits for a server-first banner)"
+				}
+				return ""
+			}())
+	}
+	row("client-EOF", true, false)
+	row("window-timeout", false, true)
+}
+
+// BUFALIAS: bufioConn.TakeRelayPrefix hands out a slice that aliases the
+// bufio.Reader's internal buffer, and the gather write reads the body through
+// the same wrapper before it writes that prefix.  bufio.Reader.Read bypasses
+// its buffer only for reads at least as large as the buffer, so the reader of
+// every bufioConn must not be larger than the relay copy buffer.
+func c05BufAlias(c *Ctx) {
+	const rule = "BUFALIAS"
+	tp := c.fn(rule, "control", "bufioConn.TakeRelayPrefix")
+	gw := c.fn(rule, "control", "tryRelayGatherWrite")
+	if tp == nil || gw == nil {
+		return
+	}
+	// P1: the returned slice comes from Peek
+	aliases := false
+	ast.Inspect(tp.Body, func(m ast.Node) bool {
+		if as, ok := m.(*ast.AssignStmt); ok && len(as.Rhs) == 1 {
+			if call, ok := as.Rhs[0].(*ast.CallExpr); ok {
+				if cal := core.Callee(tp.Info(), call); cal != nil && cal.Name() == "Peek" && cal.Pkg() != nil && cal.Pkg().Path() == "bufio" {
+					aliases = true
+				}
+			}
+		}
+		return true
+	})
+	// P2: a read through the source can happen between taking the segments and writing them
+	gi := gw.Info()
+	gg := gw.Graph()
+	take := nodeCalls(gi, "control.relayTakeSourceSegments")
+	write := nodeCalls(gi, "control.relayGatherWriteTo")
+	readSrc := func(n ast.Node) bool {
+		hit := false
+		ownCalls(n, func(call *ast.CallExpr, _ bool) {
+			if _, name, ok := methodCall(call); ok && name == "Read" && len(call.Args) == 1 {
+				hit = true
+			}
+		})
+		return hit
+	}
+	readBeforeWrite := false
+	for _, p := range gg.Find(take) {
+		if _, _, r := gg.ReachesAvoiding(p.After(), write, readSrc); r {
+			readBeforeWrite = true
+		}
+	}
+	if !aliases || !readBeforeWrite {
+		c.R.Checkf(rule, "prefix-alias-premise", c.pos(tp.Pos()), true, "no aliasing hazard: TakeRelayPrefix aliases the reader's buffer = %v, a body read precedes the prefix write = %v", aliases, readBeforeWrite)
+		return
+	}
+	limit, okL := constInt(c, rule, "control", "relayCopyBufferSize")
+	if !okL {
+		return
+	}
+	n := 0
+	for _, f := range c.P.FuncsIn("control") {
+		info := f.Info()
+		ast.Inspect(f.Body, func(m ast.Node) bool {
+			cl, ok := m.(*ast.CompositeLit)
+			if !ok {
+				return true
+			}
+			if nm := namedOf(info.TypeOf(cl)); nm == nil || nm.Obj().Name() != "bufioConn" {
+				return true
+			}
+			for _, el := range cl.Elts {
+				kv, ok := el.(*ast.KeyValueExpr)
+				if !ok || core.ExprStr(kv.Key) != "reader" {
+					continue
+				}
+				n++
+				c.R.Saw(f)
+				size, how := int64(-1), "?"
+				var ctor *ast.CallExpr
+				switch v := ast.Unparen(kv.Value).(type) {
+				case *ast.CallExpr:
+					ctor = v
+				case *ast.Ident:
+					obj := info.ObjectOf(v)
+					ast.Inspect(f.Body, func(k ast.Node) bool {
+						if as, ok := k.(*ast.AssignStmt); ok && len(as.Lhs) == 1 && len(as.Rhs) == 1 {
+							if id, ok := as.Lhs[0].(*ast.Ident); ok && info.ObjectOf(id) == obj {
+								if call, ok := as.Rhs[0].(*ast.CallExpr); ok {
+									ctor = call
+								}
+							}
+						}
+						return true
+					})
+				}
+				if ctor != nil {
+					if cal := core.Callee(info, ctor); cal != nil && cal.Pkg() != nil && cal.Pkg().Path() == "bufio" {
+						switch cal.Name() {
+						case "NewReader":
+							size, how = 4096, "bufio.NewReader (4096)"
+						case "NewReaderSize":
+							if tv, ok := info.Types[ctor.Args[1]]; ok && tv.Value != nil {
+								size, _ = constant.Int64Val(tv.Value)
+								how = "bufio.NewReaderSize(" + core.ExprStr(ctor.Args[1]) + ")"
+							}
+						}
+					}
+				}
+				ok2 := size > 0 && size <= limit
+				c.R.Checkf(rule, "reader-not-larger-than-relay-buffer@"+f.Name, c.pos(cl.Pos()), ok2,
+					"the bufio.Reader of this bufioConn is built by %s; TakeRelayPrefix hands out a slice of its internal buffer and tryRelayGatherWrite reads the body through the wrapper with a %d-byte buffer before writing that prefix — a reader larger than that (or of unknown size) takes the read into its own buffer and overwrites the pending prefix", how, limit)
+			}
+			return true
+		})
+	}
+	c.R.Floor(rule, n, 1)
+}
+
+// usesObj: e is an identifier or qualified identifier denoting obj.
+func usesObj(info *types.Info, e ast.Expr, obj types.Object) bool {
+	if obj == nil {
+		return false
+	}
+	switch x := ast.Unparen(e).(type) {
+	case *ast.Ident:
+		return info.Uses[x] == obj
+	case *ast.SelectorExpr:
+		return info.Uses[x.Sel] == obj
+	}
+	return false
+}
+
+// CAPABILITY: the relay discovers what a wrapper can do by asserting the
+// capability interfaces of tcp_relay_capabilities.go (+ WriteCloser).  A type
+// that declares a method with a capability's name but another signature is
+// silently treated as not having the capability.  Every method named like a
+// capability method must make its type implement that interface; and every
+// client-side wrapper the relay can be handed implements WriteCloser, because
+// the half-close is forwarded by asserting dst.(WriteCloser).
+func c05Capability(c *Ctx) {
+	const rule = "CAPABILITY"
+	ctl := c.P.Pkg("control")
+	type capI struct {
+		name  string
+		iface *types.Interface
+	}
+	var caps []capI
+	for _, nm := range []string{"relaySegmentSource", "relayContinuationSource", "relayPrefixSource", "WriteCloser"} {
+		if it := lookupIface(ctl.Types, nm); it != nil {
+			caps = append(caps, capI{nm, it})
+		} else {
+			c.R.Unresolved(rule, "control."+nm)
+		}
+	}
+	n := 0
+	var wrappers []*types.TypeName
+	for _, rel := range []string{"control", "component/sniffing"} {
+		pk := c.P.Pkg(rel)
+		for _, name := range pk.Types.Scope().Names() {
+			tn, ok := pk.Types.Scope().Lookup(name).(*types.TypeName)
+			if !ok || tn.IsAlias() {
+				continue
+			}
+			if _, isStruct := tn.Type().Underlying().(*types.Struct); !isStruct {
+				continue
+			}
+			if pos := c.P.Fset.Position(tn.Pos()); strings.HasSuffix(pos.Filename, "_test.go") {
+				continue
+			}
+			ptr := types.NewPointer(tn.Type())
+			ms := types.NewMethodSet(ptr)
+			for _, cp := range caps {
+				for i := 0; i < cp.iface.NumMethods(); i++ {
+					m := cp.iface.Method(i)
+					if cp.name == "WriteCloser" {
+						continue // CloseWrite is checked for the wrappers below
+					}
+					sel := ms.Lookup(tn.Pkg(), m.Name())
+					if sel == nil {
+						continue
+					}
+					n++
+					ok := types.Implements(ptr, cp.iface)
+					c.R.Checkf(rule, "method-named-like-a-capability-has-its-signature@"+rel+"."+name+"."+m.Name(), c.pos(sel.Obj().Pos()), ok,
+						"%s.%s declares %s; the relay only uses it if *%s implements control.%s (%s) — with another signature the assertion fails silently and the relay falls back to plain Read, which for the sniffer replays the stored sniff-window error and cuts the connection", rel, name, sel.Obj().Type().String(), name, cp.name, m.Type().String())
+				}
+			}
+			// a relay wrapper: hands out buffered bytes and wraps a connection
+			if ms.Lookup(tn.Pkg(), "TakeRelayPrefix") != nil {
+				wrappers = append(wrappers, tn)
+			}
+		}
+	}
+	c.R.Floor(rule+"/capability-methods", n, 8)
+	var wc *types.Interface
+	for _, cp := range caps {
+		if cp.name == "WriteCloser" {
+			wc = cp.iface
+		}
+	}
+	if wc != nil {
+		for _, tn := range wrappers {
+			ok := types.Implements(types.NewPointer(tn.Type()), wc)
+			c.R.Checkf(rule, "client-side-wrapper-forwards-CloseWrite@"+tn.Pkg().Name()+"."+tn.Name(), c.pos(tn.Pos()), ok,
+				"*%s can be the relay's left (client) connection; the relay forwards the upstream's end of stream with dst.(WriteCloser).CloseWrite() — a wrapper without CloseWrite swallows the half-close and the client sees EOF only when the grace period force-closes both sides", tn.Name())
+		}
+		c.R.Floor(rule+"/wrappers", len(wrappers), 3)
+	}
+}
+
+// CONSUME: once the port-53 detection read has consumed a frame from the
+// client stream, the connection can no longer be handed to the plain relay:
+// every return of handleTCPDnsFastPath after a successful read reports
+// handled=true.
+func c05Consume(c *Ctx) {
+	const rule = "CONSUME"
+	f := c.fn(rule, "control", "ControlPlane.handleTCPDnsFastPath")
+	if f == nil {
+		return
+	}
+	info := f.Info()
+	g := f.Graph()
+	read := nodeCalls(info, "control.readDnsMsgFromBufio")
+	pts := g.Find(read)
+	if len(pts) == 0 {
+		c.R.Unresolved(rule, "handleTCPDnsFastPath: readDnsMsgFromBufio call")
+		return
+	}
+	n := 0
+	for _, p := range pts {
+		// success edge of the read: the false edge of the following `err != nil`
+		cond, _, fl, ok := g.Cond(p.B)
+		if !ok || !strings.Contains(core.ExprStr(cond), "err != nil") {
+			c.R.Checkf(rule, "read-result-tested@"+c.pos(p.Node().Pos()), c.pos(p.Node().Pos()), false, "the result of readDnsMsgFromBufio is not tested right after the call")
+			continue
+		}
+		n++
+		var hit ast.Node
+		var trace []token.Pos
+		w := &core.Walker{G: g,
+			Visit: func(nd ast.Node) core.Verdict {
+				if hit != nil || read(nd) {
+					return core.Stop
+				}
+				if rs, ok := nd.(*ast.ReturnStmt); ok && len(rs.Results) >= 1 && core.ExprStr(rs.Results[0]) == "false" {
+					return core.Hit
+				}
+				return core.Go
+			},
+			OnHit: func(nd ast.Node, tr []token.Pos) {
+				if hit == nil {
+					hit, trace = nd, tr
+				}
+			}}
+		w.Run(core.Point{B: fl, I: 0})
+		construct := fmt.Sprintf("consumed-frame-is-never-handed-to-the-relay#%d", n)
+		if hit == nil {
+			c.R.Checkf(rule, construct, c.pos(p.Node().Pos()), true, "after this detection read succeeded (its frame was discarded from the buffered stream) every return reports handled=true")
+		} else {
+			c.R.Checkf(rule, construct, c.pos(hit.Pos()), false, "after the detection read at %s succeeded — the frame has been Discard()ed from the client stream — %s returns handled=false (lines %s): handleConn then relays the connection without that frame (port 53, bytes that parse as a DNS message but are not a query)", c.pos(p.Node().Pos()), c.pos(hit.Pos()), traceStr(c.P, trace))
+		}
+	}
+	c.R.Floor(rule, n, 2)
+	// and the reader only consumes what it accepts: Discard is dominated by the query test if the reader classifies
 }
